@@ -182,6 +182,12 @@ def main():
     replay = None
     if "--replay" in args:
         replay = args[args.index("--replay") + 1]
+    if replay:
+        # a replay re-runs the check deterministically with the seed and tier recorded in the file: every
+        # case derives from that one seed, so the recorded failing input is generated and evaluated again
+        rep = json.load(open(replay))
+        seed = int(rep.get("seed", seed))
+        tier = rep.get("tier", tier)
     info = registry.PROPS[prop]
     t0 = time.time()
     log = []
@@ -192,9 +198,7 @@ def main():
     if driver_ok:
         ctx.model = modelproc.Model()
         try:
-            if replay:
-                registry.replay(ctx, info, replay)
-            else:
+            if True:
                 for s in info["suites"]:
                     try:
                         s(ctx)
